@@ -31,6 +31,9 @@ def e2(ctx):
                 continue
             src_calls = [c for c in calls_in(v.kids[-1]) if c.kind in CALL_KINDS and
                          callee_func(prog, f, c) is None and NEWREF in external_effects(c)[0]]
+            # `obj.release()` hands the reference to the raw pointer (or array slot) as well
+            src_calls += [c for c in calls_in(v.kids[-1]) if c.kind == 'CXXMemberCallExpr' and
+                          c.callee_name() == 'release' and callee_func(prog, f, c) is None]
             if not src_calls:
                 continue
             # interned-id leak (Py_Declare_ID) is deliberate: INCREF + returned
@@ -52,7 +55,10 @@ def e2(ctx):
             releases = set()
             for c in calls_in(f.body, {'Py_DECREF', 'Py_XDECREF', 'reinterpret_steal'}):
                 a = c.call_args()
-                if a and member_path(strip_casts(a[0])) == v.name:
+                x = strip_casts(a[0]) if a else None
+                if x is not None and x.kind == 'ArraySubscriptExpr' and x.kids:
+                    x = strip_casts(x.kids[0])      # args[k] of a raw array
+                if x is not None and member_path(x) == v.name:
                     releases.add(cfg.cnode_of(c))
             # the non-null edge of `if (PyObject* x = ...)`
             starts = []
@@ -63,7 +69,8 @@ def e2(ctx):
                 else:
                     starts.append(w)
             reach = cfg.reachable_from(starts, None, releases)
-            leak = cfg.exit.idx in reach
+            # a `throw` leaves the function as surely as a `return` does
+            leak = cfg.exit.idx in reach or cfg.throwexit.idx in reach
             py_between = []
             for x in reach:
                 a = cfg.nodes[x].ast
@@ -77,7 +84,7 @@ def e2(ctx):
                       'while it is held raw' % (inst(f), v.name),
                       '%s: owned reference `%s` %s' % (
                           inst(f), v.name,
-                          'can reach a return without Py_DECREF' if leak or not releases else
+                          'can reach a return or a throw without Py_DECREF' if leak or not releases else
                           'is held as a raw pointer across %s (an exception there leaks it)'
                           % (py_between[0].callee_name() if py_between else '?')), v.loc)
     ctx.require(n >= 3, 'only %d raw owned references found' % n)
